@@ -1085,7 +1085,7 @@ namespace awkward {
     else {
       ContentPtrVec contents;
       for (auto content : contents_) {
-        contents.push_back(content.get()->num(posaxis, depth));
+        contents.push_back(content.get()->num(posaxis, posaxis < 0 ? 0 : depth));
       }
       return std::make_shared<RecordArray>(Identities::none(),
                                            util::Parameters(),
@@ -1112,7 +1112,7 @@ namespace awkward {
       for (auto content : contents_) {
         ContentPtr trimmed = content.get()->getitem_range(0, length());
         std::pair<Index64, ContentPtr> pair =
-          trimmed.get()->offsets_and_flattened(posaxis, depth);
+          trimmed.get()->offsets_and_flattened(posaxis, posaxis < 0 ? 0 : depth);
         if (pair.first.length() != 0) {
           throw std::runtime_error(
             std::string("RecordArray content with axis > depth + 1 returned a non-empty "
@@ -1426,7 +1426,7 @@ namespace awkward {
     else {
       ContentPtrVec contents;
       for (auto content : contents_) {
-        contents.push_back(content.get()->rpad(target, posaxis, depth));
+        contents.push_back(content.get()->rpad(target, posaxis, posaxis < 0 ? 0 : depth));
       }
       return std::make_shared<RecordArray>(identities_,
                                            parameters_,
@@ -1448,7 +1448,7 @@ namespace awkward {
       ContentPtrVec contents;
       for (auto content : contents_) {
         contents.push_back(
-          content.get()->rpad_and_clip(target, posaxis, depth));
+          content.get()->rpad_and_clip(target, posaxis, posaxis < 0 ? 0 : depth));
       }
       return std::make_shared<RecordArray>(identities_,
                                            parameters_,
@@ -1496,7 +1496,7 @@ namespace awkward {
     else {
       ContentPtrVec contents;
       for (auto content : contents_) {
-        contents.push_back(content.get()->localindex(posaxis, depth));
+        contents.push_back(content.get()->localindex(posaxis, posaxis < 0 ? 0 : depth));
       }
       return std::make_shared<RecordArray>(identities_,
                                            util::Parameters(),
@@ -1529,7 +1529,7 @@ namespace awkward {
                                                        recordlookup,
                                                        parameters,
                                                        posaxis,
-                                                       depth));
+                                                       posaxis < 0 ? 0 : depth));
       }
       return std::make_shared<RecordArray>(identities_,
                                            util::Parameters(),
